@@ -135,6 +135,7 @@ func NewEngine(
 	}
 
 	processor, eventsCh := NewProcessor(localPeerID, config)
+	processor.WithLogger(logger)
 
 	cmdCh := make(chan engineCommand)
 
